@@ -237,6 +237,7 @@ def check_undo(ctx, p, key, e, o, t, REPLY):
     for c in p.conds:
         if c[0][0] == "load" and c[0][1] == REPLY and c[1] == "Ok":
             ra = ("vfield", c[0], "Ok", "0")
+    ids = sorted(set(ids))
     good = ra is not None and res == ["Err"] and len(ids) == 1 and \
         e.key == ("tuple", (("field", ra, "channel"), ("field", ra, "denom"))) and o.atoms == {("field", ra, "amount"): 1} and not t.atoms
     if good:
